@@ -237,7 +237,7 @@ func c03Positions(c *Ctx, F *model.Fields, spec *urlSpec) {
 	// the URL loop: the slice range loop containing calls of validURL
 	var urlLoop *model.RangeLoop
 	for _, l := range model.SliceRangeLoops(fn) {
-		for b := range l.Blocks {
+		for _, b := range sortedBlocks(l.Blocks) {
 			for _, in := range b.Instrs {
 				if cl, ok := in.(*ssa.Call); ok && cl.Common().StaticCallee() == vu {
 					if urlLoop == nil || len(l.Blocks) < len(urlLoop.Blocks) {
@@ -296,7 +296,7 @@ func c03Position(c *Ctx, F *model.Fields, fn, vu *ssa.Function, loopHdr int, ele
 	}
 	if elemSym == "" {
 		// the element load may sit in the header's successor chain
-		for b := range loop.Blocks {
+		for _, b := range sortedBlocks(loop.Blocks) {
 			for _, in := range b.Instrs {
 				if u, ok := in.(*ssa.UnOp); ok && u.Op == token.MUL {
 					if ia, ok := u.X.(*ssa.IndexAddr); ok && ia.X == loop.Over && ia.Index == ssa.Value(loopIndexInc(loop)) {
@@ -333,7 +333,7 @@ func c03Position(c *Ctx, F *model.Fields, fn, vu *ssa.Function, loopHdr int, ele
 		return nil
 	}
 	// rewriter call: a call through the value loaded from p.srcRewriter
-	for b := range loop.Blocks {
+	for _, b := range sortedBlocks(loop.Blocks) {
 		for _, in := range b.Instrs {
 			if cl, ok := in.(*ssa.Call); ok && cl.Common().StaticCallee() == nil && !cl.Common().IsInvoke() {
 				if model.LoadedPolicyField(cl.Common().Value) == F.Get("srcRewriter") {
@@ -386,7 +386,7 @@ func c03Position(c *Ctx, F *model.Fields, fn, vu *ssa.Function, loopHdr int, ele
 		return
 	}
 	nApp := 0
-	for b := range loop.Blocks {
+	for _, b := range sortedBlocks(loop.Blocks) {
 		for _, in := range b.Instrs {
 			cl, ok := in.(*ssa.Call)
 			if !ok {
